@@ -39,7 +39,16 @@ def run_op(case, rng, cls, faces, meta, g, m):
             bad.append(('diffusion-const', 'diffusionTerm applied to the constant field %g is not zero (normalised %.3g)' % (c, e)))
         u0 = [a.copy() for a in u]                      # pristine copies: the reference must not depend on what builders did to `uf`
         div = np.asarray(pf.divergenceTerm(gen.facevar(pf, m, u0))).ravel()[rows]
-        for rnd in (1, 2):                              # second round: the same FaceVariable object after every builder has seen it
+        for rnd in (1, 2, 3):                           # second round: the same FaceVariable object after every builder has seen it
+            if rnd == 3:
+                # third round: the velocity object edited IN PLACE (u.xvalue[:] = ...), operators rebuilt from it
+                if bad or uf._xvalue.dtype.kind != 'f':
+                    break
+                for a_ in gen.facevar_arrays(uf, g.nd):
+                    a_ *= -0.5
+                u0 = [-0.5 * a for a in u0]
+                div = np.asarray(pf.divergenceTerm(gen.facevar(pf, m, u0))).ravel()[rows]
+                cov['op_after_inplace_edit'] = 1
             for name, builder in (('upwind', pf.convectionUpwindTerm), ('central', pf.convectionTerm)):
                 M = sp.csr_array(builder(uf))
                 lhs = (M @ x)[rows]
@@ -173,6 +182,23 @@ def run_steady(case, rng, cls, faces, meta, g, m):
                 bad.append(('steady-direct', 'solvePDE moved the uniform field %g by relative %.3g (cond %.3g)' % (c, err, cond)))
         else:
             cov['steady_direct_skipped_illconditioned'] = 1
+    if not bad and isinstance(alpha, pf.CellVariable) and np.all(np.isfinite(x)):
+        # next step of the same loop: the storage coefficient (a CellVariable) is refreshed IN PLACE, same phi, same dt - the
+        # uniform field must still be a steady state of the system solvePDE assembles
+        alpha.value = np.asarray(alpha.value) * np.exp(rng.normal(0, 0.7, g.dims))
+        phi.value = np.full(g.dims, c)
+        terms2 = [pf.transientTerm(phi, dt, alpha)] + terms[1:]
+        spy2 = SpySolver()
+        with np.errstate(all='ignore'):
+            solve_with(pf, spy2, phi, terms2, default_path=bool(case['seed'][-1] % 2))
+        M2, b2, x2 = spy2.last
+        xc2 = full_c.copy()
+        xc2[corner_mask.ravel()] = x2[corner_mask.ravel()]
+        e2 = residual_err(M2, xc2, b2)
+        maxerr['steady-residual-after-alpha-edit'] = e2
+        cov['steady_alpha_edited_in_place'] = 1
+        if not (e2 <= TOL):
+            bad.append(('steady-residual', 'after refreshing the storage coefficient alpha in place, the uniform field %g is no longer a solution of the system solvePDE assembles (%s, dt %g): normalised residual %.3g' % (c, scheme, dt, e2)))
     kv = gen.bc_kind_vector(g, spec)
     return bad, cov, maxerr, 'steady/%s/%s/%s' % (scheme, flowfam, kv), {'c': c, 'dt': dt, 'scheme': scheme, 'flow': flowfam, 'bc': kv}, True, None
 
@@ -277,7 +303,7 @@ def floors(agg, tier):
         for kind, need in (('op', 10), ('steady', 10), ('source', 3)):
             if agg['cov'].get('kind:%s:%s' % (kind, cls), 0) < need:
                 out.append('kind:%s:%s < %d' % (kind, cls, need))
-    for k in ('ufam:int', 'geo:int', 'geo:jitter', 'time_unit:large', 'time_unit:small', 'source_small_rates', 'steady:central', 'steady:upwind', 'steady:upwind+tvd', 'flow:stream', 'flow:radial', 'flow:uniform', 'steady_direct_checked'):
+    for k in ('op_after_inplace_edit', 'steady_alpha_edited_in_place', 'ufam:int', 'geo:int', 'geo:jitter', 'time_unit:large', 'time_unit:small', 'source_small_rates', 'steady:central', 'steady:upwind', 'steady:upwind+tvd', 'flow:stream', 'flow:radial', 'flow:uniform', 'steady_direct_checked'):
         if agg['cov'].get(k, 0) < 5:
             out.append('%s < 5' % k)
     return out
